@@ -599,7 +599,7 @@ class Parser:
         tr = self.tr
         if t == "int":
             n = f["n"]
-            big = is_big(f.get("endian"), conf)
+            big = is_big(f.get("endian"), {} if f.get("sel_option") else conf)
             if buf.is_gen:
                 v = choose_int_for(f, self.rng, n, f.get("signed", False))
                 buf.hint(cursor, encode_int(v, n, f.get("signed", False), big))
@@ -910,7 +910,7 @@ class Encoder:
             lo, hi = int_range(f["n"], f.get("signed", False))
             if not (lo <= v <= hi):
                 raise OverflowError("integer out of range")
-            fr.append(encode_int(int(v), f["n"], f.get("signed", False), is_big(f.get("endian"), conf)), fpath)
+            fr.append(encode_int(int(v), f["n"], f.get("signed", False), is_big(f.get("endian"), {} if f.get("sel_option") else conf)), fpath)
             return
         if t == "data":
             if not isinstance(v, bytes):
